@@ -15,9 +15,9 @@ RULE = ('histories of 2..3 files per process from the valid / assign / rejects p
         'targeted histories (same names with different origins and copy numbers, 0.0 vs -0.0 and 1 vs 1.0 vs True attribute values, '
         'queries before building); the last file of each history is rebuilt and written alone in a fresh subprocess and compared '
         'byte for byte; P; write; Q; write against P; Q; write in a fresh process (Q: assignments incl. other kinds of values, origin_reference '
-        'changes to a second origin), and write; write of an unchanged specification. Distinct by history index.')
+        'changes to a second origin), and write; write of an unchanged specification, incl. 30/300 specifications with PARAMETER / COMPUTATION / CALIBRATION-MEASUREMENT objects whose axes agree or not with a given or derived dimension (K-write-twice). Distinct by history index.')
 ASSUMPTIONS = ['item.name is a plain attribute without setter: renaming an object after creation is not part of the public API and is not generated']
-PARTIAL = ('proved: a new DLISFile starts from the empty specification and only the mode flag is process state. Re-writing the SAME DLISFile '
+PARTIAL = ('proved: a new DLISFile starts from the empty specification, only the mode flag is process state, a write leaves the specification it found plus write-time defaults where nothing was given (C14_a_write_leaves_the_specification), and a checked object passes the axis check again (C14_checked_object_passes_the_axis_check_again, D23 repaired); that the second write gives the same BYTES is per run. Re-writing the SAME DLISFile '
            'with DIFFERENT data keeps values derived at the first write (known finding D9, replayed here); edits between writes are compared '
            'with a fresh process for assignments and origin_reference changes')
 
@@ -155,6 +155,19 @@ def run_rewrites(ctx):
             ctx.violation('rewritten-file-differs-from-fresh-process', {**det, 'second_write': o2[0] if o2[0] == 'ok' else o2,
                                                                        'fresh_write': fr['outs'][-1], 'first_difference_at': pos,
                                                                        'in_history': a[max(0, pos - 16):pos + 32].hex(), 'fresh_process': b[max(0, pos - 16):pos + 32].hex()})
+    # objects with axes whose number / coordinate counts agree or not with a given or DERIVED dimension, written twice: the second
+    # write must do what the first did (a check made before the dimension is derived passes once and fails the next time)
+    rng_ax = ctx.rng('axes')
+    for k in range(30 if ctx.tier == 'quick' else 300):
+        prog = apistream.gen_axis_dimension(rng_ax)
+        r = apistream.run_one(ctx, prog, 'K-write-twice')
+        ctx.count('K-write-twice', key=k)
+        o1, o2 = r['outs'][-2], r['outs'][-1]
+        ctx.stat('K-write-twice', 'first_' + (o1[0] if o1[0] == 'ok' else str(o1[1])))
+        if (o1[0] == 'ok') != (o2[0] == 'ok') or (o1[0] == 'ok' and o1[1]['file'] != o2[1]['file']):
+            ctx.violation('second-write-of-unchanged-specification-differs',
+                          {'program': apistream.strip_private(prog), 'first': o1[0] if o1[0] == 'ok' else list(o1),
+                           'second': o2[0] if o2[0] == 'ok' else list(o2)})
     # data handed to write() as ONE structured array / a dict of big-endian arrays, and used for two writes of the same DLISFile and for
     # an equal specification built afterwards: all three files identical (nothing is done to the caller's arrays that a later write sees)
     import numpy as np
